@@ -15,7 +15,7 @@ RULE = ("exhaustive: all 59 049 attribute dicts (9 fg x 9 bg x 3^6 styles, expli
         "non-trivial = distinct attribute dicts / strings with at least one active attribute")
 ASSUMPTIONS = ["text free of ESC (0x1b) and 8-bit CSI (0x9b), as the property's quantifier says",
                "Python's sorted() order of the eight attribute names is the model's field order (checked by the string-level tie)"]
-TRUSTED = ["Spec/Sgr.lean is my reading of ECMA-48 SGR (0,1,2,3,4,5,7,30-37,39,40-47,49); it displays every character other than ESC and U+009B as a cell, "
+TRUSTED = ["Spec/Sgr.lean is my reading of ECMA-48 SGR (0,1,2,3,4,5,7,30-37,39,40-47,49, and the style-off codes 22,23,24,25,27 which curtsies does not emit today); it displays every character other than ESC and U+009B as a cell, "
            "including C0 controls and the other C1 controls (U+0080-U+009F: a terminal honouring 8-bit controls would interpret U+0090/U+009D etc.) - the property's "
            "domain excludes only ESC/CSI introducers, and so does the theorem; pyte is a second opinion (colour names, styles except faint, final pen) on ASCII runs "
            "for every 7th attribute dict"]
@@ -175,7 +175,8 @@ def check(ctx):
     ctx.note("interrupted-render cases: %d" % n_int)
     # cross-check the Python mirror of the SGR spec against the Lean spec (driver op `display`) and pyte
     sample = [wire.dec_text(o[3:]) for o in outs[::37] if o.startswith("ok ")]
-    sample += ["\x1b[1;31;44mx\x1b[mz", "\x1b[38;5;1mq", "a\x1b[2Ab", "\x9b31mx", "\x1b[;my", "\x1bAz", "x\x1b[3"]
+    sample += ["\x1b[1;31;44mx\x1b[mz", "\x1b[38;5;1mq", "a\x1b[2Ab", "\x9b31mx", "\x1b[;my", "\x1bAz", "x\x1b[3",
+               "\x1b[1;2;3;4;5;7ma\x1b[22mb\x1b[23;24mc\x1b[25md\x1b[27me\x1b[21mf\x1b[26mg\x1b[1mh\x1b[22;31mi"]
 
     def mirror(s):
         return fmt_display(*sgrterm.display(s))
